@@ -49,6 +49,18 @@ CHECKS = {
             "DESIGN.md 3/C06",
             "Generated (decoder, caller parameters, mutated or random input) cases for LZMA (header and raw with any props byte / dictionary / declared size), LZMA2, XZ (multi on/off), LZIP, BCJ x8, Delta, BCJ2; every read call, including one after an error, must return; panics and shadow assertions are caught, aborts/stack overflows are detected through the shard journal and confirmed in isolation, peak heap is bounded by declared dictionary + 8 MiB + 4 x input, a case may take at most 20 s (hangs: watchdog + isolation re-run).",
             "Single-threaded decoders only (MT readers: C09); the accounting allocator measures Rust allocations of the process."),
+    "C08": ("exploration", "schedule exploration with the shuttle deterministic scheduler (random, PCT, round robin) over proptest-generated scenarios; single-threaded path as reference model",
+            "DESIGN.md 3/C08",
+            "Generated scenarios (data, options, LZMA2/LZIP, unit sizes, worker counts 1-5, write plans, read sizes, stream source: MT writer with and without flush, ST writer with independent units, one unit of dependent chunks, preset dictionary, trailing bytes) each run under 40 (quick) / 300 (thorough) seeded schedules; MT-written streams must decode with the ST and the MT reader to the written bytes, the MT reader must return what the ST reader returns.",
+            "shuttle is sequentially consistent and interleaves only at synchronisation operations; failing scenarios are reported unshrunk with scheduler kind and seed; one recorded finding (LZIPReaderMT and trailing data)."),
+    "C09": ("exploration", "schedule exploration (shuttle) x fault injection over generated scenarios; dead-lock detection and step bound decide termination",
+            "DESIGN.md 3/C09",
+            "Generated scenarios x faults (none, byte damage, truncation, zero-length input, missing LZMA2 terminator, source error at read call j, sink error at write call j) x 30/300 seeded schedules for LZMA2ReaderMT, LZIPReaderMT, LZMA2WriterMT, LZIPWriterMT. The scheduler reports dead-locks exactly; more than 3M scheduling points counts as non-termination. Outcome must be Err or Ok with exactly the data (raw LZMA2 payload damage: the ST reader's verdict is the model); reached I/O errors keep their kind.",
+            "Liveness = dead-lock freedom + step bound under randomised/PCT/round-robin schedules; sequentially consistent scheduler."),
+    "C10": ("exploration", "schedule exploration (shuttle random/PCT/round robin, bounded DFS for the work queue) over generated drop/finish histories",
+            "DESIGN.md 3/C10",
+            "Generated histories: construct with max_workers in {0,1-6,300}, run a prefix of a read/write history (nothing, partial, to the end, up to an error), then drop or finish, under 60/600 seeded schedules; the scheduler reports every task left blocked after the scenario returned (leaked thread) and a blocked drop/finish as dead-lock; spawned workers are counted against clamp(max_workers,1,256). The work queue alone (0-2 items, 1-2 consumers, close before/after push) is explored by depth-first search with an iteration cap; items must be stolen exactly once or stay queued.",
+            "Sequentially consistent scheduler; DFS runs are exhaustive only when they finish below the cap (class queue_dfs counts them)."),
 }
 
 NOT_YET = {
@@ -71,7 +83,7 @@ def main():
                 "thorough_cmd": f"./check {pid} thorough",
                 "evidence_file": f"evidence/{pid}.json",
                 "replay_cmd_template": "./check replay {path}",
-                "engine": "lzv",
+                "engine": "lzv-mt" if pid in ("C08","C09","C10") else "lzv",
                 "level_claimed": {"category": level, "text": text, "design_ref": ref},
                 "level_note": note,
                 "technique": tech,
@@ -84,7 +96,7 @@ def main():
         "hooks": {
             "guard": "--cfg lzma_rust2_verif (instrumentation) and --cfg lzma_rust2_verif_shuttle (std::sync/thread -> shuttle)",
             "enable": "RUSTFLAGS='--cfg lzma_rust2_verif [--cfg lzma_rust2_verif_shuttle]' cargo build in /verif/harness (done by ./check)",
-            "baseline_off_cmd": "cd /repo && cargo test --workspace --no-fail-fast --offline",
+            "baseline_off_cmd": "cd /repo && cargo test --offline --no-fail-fast --lib --test lzip --test lzip_mt --test lzip_reference --test lzma --test lzma2 --test lzma2_mt --test xz_reference  # the 179 stable tests of BASELINE.json; regression/multi_writer/xz are in its always-fail set (emptied fixtures)",
             "source_commits": [c.split()[0] for c in HOOK_COMMITS],
             "add_only": True,
         },
